@@ -418,7 +418,16 @@ pub fn next_op(r: &mut Rng, s: &Snap, cfg: &Cfg, p: &Profile, g: &mut GenState) 
                     }
                     Op::RemoveValidator { sender: OWNER.into(), validator: r.pick(&reg).clone() }
                 }
-                _ => Op::SetRedelegateBlocked { blocked: r.chance(1, 2) },
+                _ => {
+                    // stake left on a validator that is no longer registered (removed while its redelegation was
+                    // locked): anybody may complete the removal through the registry's `Redelegations` message
+                    let stranded: Vec<String> = s.delegations.iter().filter(|(v, d)| **d > 0 && !reg.contains(*v)).map(|(v, _)| v.clone()).collect();
+                    if !stranded.is_empty() && r.chance(2, 3) {
+                        let sender = if r.chance(1, 2) { OWNER.to_string() } else { r.pick(&us).clone() };
+                        return Op::Redelegations { sender, validator: r.pick(&stranded).clone() };
+                    }
+                    Op::SetRedelegateBlocked { blocked: r.chance(1, 2) }
+                }
             }
         }
         16 => invalid_op(r, s, cfg),
